@@ -129,6 +129,10 @@ def run(chk):
         problems.append('opcode enumeration of mir.h differs from coq/Mir/Opcode.v')
     tr_c20_mir2c.main()
     r = chk.prove()
+    for ax in sorted(set(re.findall(r'^((?:ClassicalDedekindReals|FunctionalExtensionality|Classical_Prop)\.\w+)', r['log'], re.M))):
+        t = 'axiom (Print Assumptions): ' + ax     # multi-line axiom types are not caught by vlib's parser
+        if t not in chk.cov['trusted_base']:
+            chk.cov['trusted_base'].append(t)
     exe, oracle, model = build(chk)
     infos = G.opcode_infos(oracle.ask, ops)
     chk.cov['trusted_base'] += ['translator tools/tr_c20_mir2c.py (symbolic execution of the printing code of out_insn; unknown text => SUnknown => theorem fails)',
